@@ -98,8 +98,10 @@ def run_case(sname, m, npos, extra, bound_names, bscope, active, res):
   harness.hard_reset()
   del REC[:]
   sel = 'c10.' + sname
+  def bval(n):
+    return {'b': None, 'k': 0, 'mm': ''}.get(n, 'bound_' + n)   # falsy values are bound values like any other
   for n in bound_names:
-    gin.bind_parameter((bscope, sel, n), 'bound_' + n)
+    gin.bind_parameter((bscope, sel, n), bval(n))
   applicable = set(bound_names) if (bscope == '' or active == [bscope]) else set()
   names = sh['pos'] + sh['kwo'] + (['z'] if sh['vk'] else [])
   has_marker = any(v in ('rpos', 'rkw') for v in m.values()) or R in sh['dfl'].values() or extra == 'marker'
@@ -131,12 +133,12 @@ def run_case(sname, m, npos, extra, bound_names, bscope, active, res):
       expect[n] = ('id', caller_vals[n])
     elif mode in ('rpos', 'rkw'):
       if n in applicable:
-        expect[n] = ('eq', 'bound_' + n)
+        expect[n] = ('eq', bval(n))
       else:
         missing.append(n)
     else:
       if n in applicable:
-        expect[n] = ('eq', 'bound_' + n)
+        expect[n] = ('eq', bval(n))
       elif n in sh['dfl']:
         if sh['dfl'][n] is R:
           missing.append(n)
